@@ -662,7 +662,7 @@ func (c *ssCase) run(drain bool, flavour int) {
 	r := c.r
 	nops := r.Range(4, 34)
 	cancelBias := 0
-	if flavour == 1 { // stress the reliable-reset paths
+	if flavour >= 1 { // stress the reliable-reset paths
 		cancelBias = 6
 	}
 	for k := 0; k < nops && !c.panicked; k++ {
@@ -709,7 +709,14 @@ func (c *ssCase) run(drain bool, flavour int) {
 				c.opPop(c.budget())
 			}
 		case x < 91+cancelBias:
-			if r.Chance(2, 3) || flavour == 1 {
+			if flavour == 2 && !sn.FinishedWriting {
+				// flavour 2: Close() first, CancelWrite() afterwards (valid order: aborts the delivery of what is outstanding)
+				if !c.writing {
+					c.opClose()
+				} else {
+					c.opPop(c.budget())
+				}
+			} else if r.Chance(2, 3) || flavour >= 1 {
 				c.opCancel(int64(r.Range(0, 500)))
 			} else {
 				c.opStop(int64(r.Range(0, 500)))
@@ -827,7 +834,7 @@ func runSSCase(w *bufio.Writer, seed uint64, idx int, r *u.Rng, script *ssScript
 	c.cwin = r.Pick(0, 500, 20000, 65536, 1<<20, 1<<20, 1<<20)
 	flavour := 0
 	if r.Chance(1, 4) {
-		flavour = 1
+		flavour = 1 + r.Intn(2)
 		c.rsa = true
 	}
 	drain := r.Chance(3, 4)
@@ -943,6 +950,26 @@ var ssScripts = []ssScript{
 				c.fail(ssKeyFinTrunc+"/peer-final-size-error", fmt.Sprintf("a real ReceiveStream fed the retransmitted frame [%d,%d)+FIN=%v and then RESET_STREAM_AT(final=%d, reliable=%d) answers: %s", o.frame.off, o.frame.off+int64(len(o.frame.data)), o.frame.fin, a, d, re))
 			}
 		}
+		c.drain()
+	}},
+	{sid: 0, rsa: true, swin: 1 << 20, cwin: 1 << 20, f: func(c *ssCase) { // FIN frame already queued for retransmission when CancelWrite truncates the queue
+		c.opWrite(50)
+		c.opRel()
+		c.opWrite(50)
+		c.opClose()
+		c.opPop(1452)
+		c.opLost(0)
+		c.opCancel(7)
+		c.opPopF(1452, false)
+		c.drain()
+	}},
+	{sid: 0, rsa: true, swin: 1 << 20, cwin: 1 << 20, f: func(c *ssCase) { // data beyond the reliable size still buffered when Close(); CancelWrite() happen
+		c.opWrite(50)
+		c.opRel()
+		c.opWrite(50)
+		c.opClose()
+		c.opCancel(7)
+		c.opPopF(1452, false)
 		c.drain()
 	}},
 	{sid: 4, rsa: false, swin: 600, cwin: 1 << 20, f: func(c *ssCase) {
